@@ -72,7 +72,15 @@ def pair(x):
     return (x, x)
 
 
-MAPFNS = {'inc': inc, 'wrap': wrap, 'pair': pair}
+def incinc(x):
+    return inc(inc(x))
+
+
+def incwrap(x):
+    return wrap(inc(x))
+
+
+MAPFNS = {'inc': inc, 'wrap': wrap, 'pair': pair, 'incinc': incinc, 'incwrap': incwrap}
 
 
 def pred(p):
